@@ -291,10 +291,12 @@ func (w *treeWorld) burst(kinds []string) {
 		switch x := w.r.Intn(100); {
 		case x < 50:
 			w.srvEvent()
-		case x < 64:
+		case x < 62:
 			w.refilter()
-		case x < 70:
+		case x < 67:
 			w.refilterVolley()
+		case x < 70:
+			w.attachRefilterEqual()
 		case x < 82:
 			w.closeNode()
 		case x < 94:
@@ -331,6 +333,29 @@ func (w *treeWorld) refilter() {
 		return
 	}
 	w.refilterAs(kv.Pick(w.r, cs), kv.Pick(w.r, treeFilters()))
+}
+
+// attachRefilterEqual: a filtered subscription / clone is created and at once refiltered with an EQUAL filter
+// (a no-op by C07) — while its parent's readiness may not have been noticed yet
+func (w *treeWorld) attachRefilterEqual() {
+	ps := w.publishers()
+	if len(ps) == 0 || len(w.nodes) >= 9 {
+		return
+	}
+	ft := kv.Pick(w.r, treeFilters())
+	if ft.Op == "fn" {
+		return // opaque predicates are never equal
+	}
+	before := len(w.nodes)
+	w.attachAs(kv.Pick(w.r, ps), kv.Pick(w.r, []string{"subf", "clonef"}), ft)
+	if len(w.nodes) == before {
+		return
+	}
+	n := w.nodes[len(w.nodes)-1]
+	for i := 1 + w.r.Intn(2); i > 0; i-- {
+		w.refilterAs(n, ft)
+	}
+	w.tr.stats["act:attach-refilter-equal"]++
 }
 
 // refilterVolley: Refilter A, B, A, ... on one node back to back (the last call must win)
